@@ -27,7 +27,7 @@ RULE = ("random programs over nested let (sequential bindings, destructuring tar
         "with up to 3 copies in which a run of consecutive body forms of a let / fn / module body is "
         "wrapped in (let [FRESH 0] ...); non-trivial there = a definition of a let-bound name followed "
         "by a reference to it.")
-FLOOR = {"quick": 500, "thorough": 800}
+FLOOR = {"quick": 300, "thorough": 800}
 BUDGET = {"quick": 26, "thorough": 480}
 CASE_TIMEOUT = 20
 NEEDS_EVENTS = True
